@@ -525,9 +525,73 @@ func (c *compiler) quantified(n *opNode, arrayExpr pgsql.Expression, all bool, s
 	if prec, _ := binaryPrec(n.op); prec != precCompare {
 		return nil, outside("ANY/ALL with operator %q", string(n.op))
 	}
-	switch unwrapFuture(arrayExpr).(type) {
-	case pgsql.Subquery, pgsql.Query, pgsql.Select:
-		return nil, outside("ANY/ALL over a subquery")
+	// left op ANY (subquery): the comparison ranges over the rows of a one-column sub-select. PostgreSQL's grammar reads
+	// additional parentheses around the sub-select as a nested select_with_parens, i.e. still as this form.
+	var subq *pgsql.Query
+	switch t := unwrapFuture(arrayExpr).(type) {
+	case pgsql.Subquery:
+		subq = &t.Query
+	case pgsql.Query:
+		subq = &t
+	case pgsql.Select:
+		subq = &pgsql.Query{Body: t}
+	case *pgsql.Parenthetical:
+		switch u := unwrapFuture(t.Expression).(type) {
+		case pgsql.Subquery:
+			subq = &u.Query
+		case pgsql.Query:
+			subq = &u
+		case pgsql.Select:
+			subq = &pgsql.Query{Body: u}
+		}
+	}
+	if subq != nil {
+		left, err := c.opTree(n.l, s)
+		if err != nil {
+			return nil, err
+		}
+		sub, err := c.query(*subq, s)
+		if err != nil {
+			return nil, err
+		}
+		if len(sub.cols) != 1 {
+			return nil, staticErr("subquery has too many columns")
+		}
+		op := n.op
+		return func(r *run, e *env) (Value, error) {
+			a, err := left(r, e)
+			if err != nil {
+				return Value{}, err
+			}
+			rows, err := sub.exec(r, e)
+			if err != nil {
+				return Value{}, err
+			}
+			sawNull := false
+			for _, row := range rows {
+				el := row[0]
+				if a.T == TNullAny || el.T == TNullAny {
+					sawNull = true
+					continue
+				}
+				res, err := compareOp(op, a, el)
+				if err != nil {
+					return Value{}, err
+				}
+				switch {
+				case res.Null:
+					sawNull = true
+				case all && res.I == 0:
+					return Bool(false), nil
+				case !all && res.I != 0:
+					return Bool(true), nil
+				}
+			}
+			if sawNull {
+				return Null(TBool), nil
+			}
+			return Bool(all), nil
+		}, nil
 	}
 	left, err := c.opTree(n.l, s)
 	if err != nil {
